@@ -17,6 +17,7 @@ def main():
     ap.add_argument("--tier", default="quick")
     ap.add_argument("--keep", action="store_true")
     ap.add_argument("--seed", default=None)
+    ap.add_argument("--only", default=None, help="comma separated sub-check names (passed to ./check)")
     ap.add_argument("checks", nargs="+")
     a = ap.parse_args()
     base = tempfile.mkdtemp(prefix="ivmut_", dir="/tmp")
@@ -48,7 +49,7 @@ def main():
         res = {}
         for c in a.checks:
             t0 = time.time()
-            r = subprocess.run([os.path.join(VERIF, "check"), c, "--tier", a.tier], env=env, capture_output=True, text=True)
+            r = subprocess.run([os.path.join(VERIF, "check"), c, "--tier", a.tier] + (["--only", a.only] if a.only else []), env=env, capture_output=True, text=True)
             viol = [l for l in r.stdout.splitlines() if l.startswith("VIOLATION") or l.startswith("  failing")]
             res[c] = (r.returncode, viol)
             print("== %s rc=%d %.0fs" % (c, r.returncode, time.time() - t0))
